@@ -72,6 +72,13 @@ func (i *IRCServer) cmdJoin(s *Session, reply *Replyctx, msg *irc.Message) {
 				Params:  []string{s.Nick, c.name, "Cannot join channel (+i)"},
 			})
 			continue
+		} else if banned(c.bans, s.ircPrefix.String(), s.Nick+"!"+s.Username+"@"+s.RemoteAddr) {
+			i.sendUser(s, reply, &irc.Message{
+				Prefix:  i.ServerPrefix,
+				Command: irc.ERR_BANNEDFROMCHAN,
+				Params:  []string{s.Nick, c.name, "Cannot join channel (+b)"},
+			})
+			continue
 		} else if c.modes['x'] && !s.invitedTo[ChanToLower(channelname)] {
 			if err := i.verifyCaptcha(s, key); err != nil {
 				captchaUrl := i.generateCaptchaURL(s, fmt.Sprintf("join:%d:%s", s.LastActivity.UnixNano(), c.name))
@@ -88,13 +95,6 @@ func (i *IRCServer) cmdJoin(s *Session, reply *Replyctx, msg *irc.Message) {
 				captchaChallengesSent.Inc()
 				continue
 			}
-		} else if banned(c.bans, s.ircPrefix.String(), s.Nick+"!"+s.Username+"@"+s.RemoteAddr) {
-			i.sendUser(s, reply, &irc.Message{
-				Prefix:  i.ServerPrefix,
-				Command: irc.ERR_BANNEDFROMCHAN,
-				Params:  []string{s.Nick, c.name, "Cannot join channel (+b)"},
-			})
-			continue
 		} else if c.modes['k'] && c.key != key {
 			i.sendUser(s, reply, &irc.Message{
 				Prefix:  i.ServerPrefix,
